@@ -48,6 +48,7 @@ _RULES = {
     "RELEX-WINDOW": rules_more.rule_relex_window,
     "UPDATE-ORDER": rules_more.rule_update_order,
     "REUSE": rules_struct.rule_reuse,
+    "ERROR-OWNER": rules_struct.rule_error_owner,
     "INFO-EXTENT": rules_struct.rule_info_extent,
     "NO-MERGE": rules_more.rule_no_merge,
     "BSEARCH-MONO": rules_more.rule_bsearch_mono,
